@@ -8,7 +8,7 @@ from fractions import Fraction
 from hypothesis import strategies as st
 
 from cpverif import spec as S
-from cpverif.core import Ctx, Part, custom_part, h64, hyp_part
+from cpverif.core import Ctx, Part, custom_part, enum_part, h64, hyp_part
 from cpverif.lib import L
 
 RULE = (
@@ -240,6 +240,7 @@ def drive_ts_anchor(ctx: Ctx) -> None:
 
 
 # ------------------------------------------------------------------------------------------------
+from cpverif import strategies as G  # noqa: E402
 _PAD = st.sampled_from(["", "", " ", "  ", "\t", " \t "])
 
 
@@ -362,6 +363,18 @@ def check_e2e(ctx: Ctx, case) -> None:
             u, l = tss[-1][1], tss[-1][2]      # the signature in force, written again
         tss.append((tt + (off if len(tss) > 1 else 0), u, l))
     anchors = sorted((a[0] + (off if k % 2 else 0), a[1]) for k, a in enumerate(case["anchors"]))
+    # as in real charts: anchors ON tempo changes whose literal time is what the tempo map says for that
+    # tick, or a few microseconds next to it (an anchor is decoded verbatim whatever the map says)
+    if len(bpms) > 1 and case["anchors"] and case["anchors"][0][1] % 2 == 0:
+        from cpverif.model import TempoModel
+        tm = TempoModel(res, bpms)
+        near = []
+        for j, (tk, _) in enumerate(bpms[1:4]):
+            exact = tm.exact_us(tk)
+            d = [0, -1, 1, -2, 2, 7, -500, 999][(case["anchors"][0][1] // 2 + j) % 8]
+            for base in {int(exact), int(exact) + 1, round(exact)}:
+                near.append((tk, max(0, base + d)))
+        anchors = sorted(set(anchors + near))
     merged = [(tk, 0, ["TS", u, l]) for tk, u, l in tss] + [(tk, 1, ["B", n]) for tk, n in bpms] + \
              [(tk, 2, ["A", us]) for tk, us in anchors]
     merged.sort(key=lambda x: (x[0], x[1]))
@@ -401,12 +414,26 @@ def check_e2e(ctx: Ctx, case) -> None:
              classes=[f"kinds_{kinds}", f"tempo_events_{min(len(bpms), 10)}"])
 
 
+def long_cases(ctx: Ctx):
+    """Lines longer than any plausible line buffer or length guard (2^16 characters and beyond)."""
+    for pad in G.HUGE_PADS:
+        for lp, rp in ((pad, ""), ("", pad), (pad, pad[:66000])):
+            yield {"kind": "B", "lp": lp, "tick": "768", "v": "90500", "rp": rp}
+            yield {"kind": "TS", "lp": lp, "tick": "768", "v": "6", "l": "3", "rp": rp}
+            yield {"kind": "TS", "lp": lp, "tick": "768", "v": "3", "l": None, "rp": rp}
+        yield {"kind": "A", "lp": pad, "tick": "768", "v": "2000000", "rp": ""}
+    big = "7" * 4000
+    yield {"kind": "B", "lp": "  ", "tick": big, "v": "120000", "rp": ""}
+    yield {"kind": "TS", "lp": "  ", "tick": big, "v": big, "l": "2", "rp": ""}
+
+
 PARTS: list[Part] = [
+    enum_part("long", long_cases, check_lines, {"quick": 2, "thorough": 2}),
     custom_part("bpm_range", drive_bpm_range, check_bpm_range, {"quick": 8, "thorough": 16}),
     custom_part("bpm_random", drive_bpm_random, check_bpm_random, {"quick": 4, "thorough": 16}),
     custom_part("ts_anchor", drive_ts_anchor, check_ts_anchor, {"quick": 2, "thorough": 8}),
     hyp_part("lines", strat_lines, check_lines, {"quick": 1500, "thorough": 20000},
              {"quick": 2, "thorough": 16}),
-    hyp_part("e2e", strat_e2e, check_e2e, {"quick": 400, "thorough": 10000},
-             {"quick": 2, "thorough": 16}),
+    hyp_part("e2e", strat_e2e, check_e2e, {"quick": 500, "thorough": 10000},
+             {"quick": 6, "thorough": 16}),
 ]
